@@ -38,6 +38,9 @@ CAP_BYTES = {
     'gr': lambda asn: cap(64, b'\x00\x78'),
     'as4': lambda asn: cap_as4(asn),
     'unk': lambda asn: cap(99, b'\x01\x02'),
+    'grf': lambda asn: cap(64, b'\x80\x78\x00\x01\x01\x80'),          # graceful restart: restart flag, one family with the forwarding bit
+    'llgr': lambda asn: cap(71, b'\x00\x01\x01\x80\x00\x00\x78'),
+    'xnh': lambda asn: cap(5, b'\x00\x01\x00\x01\x00\x02'),
     'apx': lambda asn: cap(69, b'\x00\x01\x01\x03' + b'\x00\x63\x63\x01' + b'\x00\x02\x01\x00'),   # add-path: ipv4 both, unknown family, unknown action
 }
 
